@@ -102,6 +102,20 @@ m("c19_has_next_states_any", "C19", BS, "        return self.next_states is not 
 m("c19_init_clears_nothing_but_marks", "C19", CA, "            if any(el._states) and not el.has_next_states:", "            if any(el._states) and not el.has_next_states and not el.has_states:")
 m("c19_filter_free_inputs", "C19", CA, "        x_next = {\n            el: _filter_vars(vars, independent=False)\n            for el, vars in net.next_states.items()\n        }", "        x_next = {\n            el: _filter_vars(vars, independent=False)\n            for el, vars in net.next_states.items()\n        }\n        _known = set(str(s) for a in args_in for s in cs.symvar(a))\n        for el in list(x_next):\n            x_next[el] = {k: v for k, v in x_next[el].items() if all(str(s) in _known for s in cs.symvar(v))}")
 
+# ---- C14
+m("c14_gauss_seidel", "C14", BS, "            self.next_states[name] = next_state\n", "            self.next_states[name] = next_state\n            if name == 'rho': self.states[name] = next_state\n")
+mm("c14_no_normalise", "C14", [(NP, "        return (beta / np.sum(betas, 0)) * Q", "        return beta * Q"), (CA, "        return (beta / cs.sum1(betas)) * Q", "        return beta * Q")])
+mm("c14_normalise_max1", "C14", [(NP, "        return (beta / np.sum(betas, 0)) * Q", "        return (beta / max(1.0, np.sum(betas, 0))) * Q"), (CA, "        return (beta / cs.sum1(betas)) * Q", "        return (beta / cs.fmax(1.0, cs.sum1(betas))) * Q")])
+m("c14_betas0", "C14", ND, "            q = engine.nodes.get_upstream_flow(q_last, link.turnrate, betas, q_o)", "            q = engine.nodes.get_upstream_flow(q_last, betas[0], betas, q_o)")
+m("c14_fix_reverted", "C14", ND, "            if len(exiting) > 1:", "            if False:")
+m("c14_downstream_first_only", "C14", ND, "        if len(links_down) == 1:\n            return first(links_down)[-1].states[\"rho\"][0]", "        if len(links_down) >= 1:\n            return first(links_down)[-1].states[\"rho\"][0]")
+m("c14_by_name_lookup", "C14", LK, "        node_up, node_down = net.nodes_by_link[self]  # type: ignore[index]", "        node_up, node_down = net.nodes_by_link[net.links_by_name[self.name]]  # type: ignore[index]")
+m("c14_origin_by_name", "C14", OR, "        links_down: Collection[tuple[\"Node\", \"Node\", \"Link[VarType]\"]] = net.out_links(\n            net.origins[self]  # type: ignore[index]\n        )", "        links_down: Collection[tuple[\"Node\", \"Node\", \"Link[VarType]\"]] = net.out_links(\n            net.origins[net.origins_by_name[self.name]]  # type: ignore[index]\n        )")
+m("c14_upspeed_first", "C14", NP, "        return np.sum(v_lasts * q_lasts, 0) / np.sum(q_lasts, 0)", "        return v_lasts[0]")
+m("c14_equal_split_when_unit", "C14", ND, "                q = engine.nodes.get_upstream_flow(engine.vcat(q), link.turnrate, betas)", "                q = engine.nodes.get_upstream_flow(engine.vcat(q), 1.0, engine.vcat(*(1.0 for _ in exiting)))")
+m("c14_ramp_first_link", "C14", ND, "        if self in net.origins_by_node:\n            origin = net.origins_by_node[self]", "        if self in net.origins_by_node and first(net.links)[0] is not self:\n            origin = net.origins_by_node[self]")
+m("c14_destination_name_sort", "C14", ND, "        rho_firsts = engine.vcat(\n            *(dlink.states[\"rho\"][-1] for _, _, dlink in links_down)\n        )", "        rho_firsts = engine.vcat(\n            *(dlink.states[\"rho\"][-1] for _, _, dlink in links_down if dlink.name <= max(x[2].name for x in links_down))\n        )[: 1 + (len({x[2].name for x in links_down}) > 1)]")
+
 def run(prop, src, runs):
     env = dict(os.environ, SYM_METANET_SRC=src)
     p = subprocess.run(["/venv/bin/python", "-m", "sim.check", prop, "--runs", str(runs), "--no-evidence"], cwd="/verif", env=env, capture_output=True, text=True, timeout=1800)
